@@ -480,6 +480,7 @@ type Contract struct {
 	Modifies []string
 	HasMod   bool
 	Safety   bool
+	SafetyFor []string // empty = every property the contract serves
 	Assumed  bool   // "assume func": contract is trusted, body not verified
 	Inline   bool
 	PanicsOK bool   // explicit panics are allowed (specified by "panics when" handled separately)
@@ -851,7 +852,13 @@ func (sp *Specs) parseSpecText(pkg, file, text string) {
 				}
 			}
 		case "safety":
+			// "safety" = in every check the function serves; "safety C14, C01" = only in the checks of these properties
 			c.Safety = true
+			for _, r := range strings.Split(rest, ",") {
+				if r = strings.TrimSpace(r); r != "" {
+					c.SafetyFor = append(c.SafetyFor, r)
+				}
+			}
 		case "inline":
 			c.Inline = true
 		case "returns":
